@@ -69,14 +69,15 @@ class BlockingExecutor(Executor):
                 self.add_error(err, path, node)
                 return None
 
-            # Same contract as the generic executor: only ResolverError is a
-            # field error, anything else raised by a resolver (including this
-            # library's own coercion errors) aborts the execution.
+            # Same contract as the generic executor: ResolverError and the
+            # coercion errors of lazily coerced inputs (directive arguments
+            # read through ``info.get_directive_arguments``) are field errors,
+            # anything else raised by a resolver aborts the execution.
             try:
                 resolved = resolver(
                     parent_value, self.context_value, info, **coerced_args
                 )
-            except ResolverError as err:
+            except (CoercionError, ResolverError) as err:
                 self.add_error(err, path, node)
                 return None
         finally:
